@@ -41,6 +41,7 @@ BASE = {
     "avail": "none",
     "pf": "none",
     "clen": "s100",
+    "pw": "power",  # rated power given directly, or as power density x heavy-metal mass
     "start": 0,  # restart point = k-th node of the run from (0,0)
     "pA": "plain",
     "pB": "plain",
@@ -67,7 +68,8 @@ ALTS = {
     "steps": ["u0", "u1", "u3", "v021", "v310", "v102"],
     "avail": ["s05", "s0", "lvar", "rep", "long", "short"],
     "pf": ["cvar", "svar", "rep", "long", "short"],
-    "clen": ["s50", "lvar", "long"],
+    "clen": ["s50", "lvar", "long", "short"],
+    "pw": ["density"],
     "start": list(range(1, 12)),
     "pA": PROFILES,
     "pB": PROFILES,
@@ -77,7 +79,7 @@ ALTS = {
     "build": ["insert0"],
     "dep": ["first", "last"],
     "tc": [True],
-    "maxIters": [1, 3],
+    "maxIters": [1, 3, 0],
     "skip": ["c0", "c1"],
     "defer": [1, 2],
 }
@@ -140,6 +142,8 @@ def materialize(ab, power=1.0e6):
         return None
     fmt = ab["fmt"]
     s = {"nCycles": n, "power": power}
+    if ab["pw"] == "density":
+        s = {"nCycles": n, "power": 0.0, "powerDensity": power / 1.0e6}
     if fmt == "simple":
         if len(set(steps)) > 1 or ab["pf"] == "svar":
             return None
@@ -151,8 +155,12 @@ def materialize(ab, power=1.0e6):
             s["cycleLength"] = 50.0
         elif cl == "lvar":
             s["cycleLengths"] = _LEN[:n]
-        else:
+        elif cl == "long":
             s["cycleLengths"] = (_LEN + [75.0])[: n + 1]
+        else:
+            if n < 2:
+                return None
+            s["cycleLengths"] = _LEN[: n - 1]
         av = ab["avail"]
         if av == "s05":
             s["availabilityFactor"] = 0.5
@@ -192,7 +200,7 @@ def materialize(ab, power=1.0e6):
             return None  # positive at-power days with zero availability is contradictory input: outside the alphabet
         if ab["clen"] != "s100" and "bl" not in kinds:
             return None
-        if ab["clen"] == "long":
+        if ab["clen"] in ("long", "short"):
             return None
         cycles = []
         for i in range(n):
@@ -370,9 +378,11 @@ def reference(cfg, H):
     for p in cfg["stack"]:
         if p.get("dependsOn"):  # dependencies are attached at the end, disabled, forced at BOL
             stack.append(dict(_profile(p["dependsOn"], "disabled+bolForce")))
-    if s["tightCoupling"]:
+    real = cfg.get("kind") == "db"  # real MainInterface/DatabaseInterface around the recorders (not recorded)
+    if s["tightCoupling"] and not real:
         stack.append(_profile("database", "plain"))
-    defer, P = s["deferredInterfacesCycle"], s["power"]
+    defer = s["deferredInterfacesCycle"]
+    P = s["power"] or s["powerDensity"] * cfg["hmMass"]  # rated power: given, or power density x heavy-metal mass
     c0, n0 = s["startCycle"], s["startNode"]
     T = []
 
@@ -383,6 +393,10 @@ def reference(cfg, H):
             halted = halted or (event == "BOC" and p["haltAt"] == cyc_)
         return halted
 
+    if real and n0 == 0 and c0 > 0:
+        # documented restart prologue (MainInterface.interactBOL): the state loaded from the database is the
+        # last node of the previous cycle *before* its end-of-cycle interactions, which are therefore run now
+        emit("EOC", [c0 - 1], c0 - 1, cycle=c0 - 1, node=len(H[c0 - 1]["steps"]))
     emit("BOL", [], c0, cycle=c0, node=n0)
     last = (c0, n0)
     for c in range(c0, s["nCycles"]):
@@ -402,7 +416,8 @@ def reference(cfg, H):
                     need = max([_conv_iter(p, c, nd) for p in couplers] + [1])
                     for it in range(min(need, s["tightCouplingMaxNumIters"])):
                         emit("Coupled", [it], c, it=it + 1, **st)
-                T.append(dict({"i": "database", "e": "writeDB", "a": []}, **st))
+                if not real:
+                    T.append(dict({"i": "database", "e": "writeDB", "a": []}, **st))
             last = (c, nd)
         emit("EOC", [c], c, node=k, **cyc)
     emit("EOL", [], 0, cycle=last[0], node=last[1])
@@ -512,9 +527,15 @@ def _drive(cfg, cs, r, cls, obs):
     from armi.operators.operator import Operator
 
     s = cfg["settings"]
+    real = cfg.get("kind") == "db"
+    obs["hmMass"] = float(r.core.getHMMass())
     o = Operator(cs)
     o.r = r
     r.o = o
+    if real:
+        from armi.bookkeeping.mainInterface import MainInterface
+
+        o.addInterface(MainInterface(r, cs), reverseAtEOL=True)  # as bookkeeping.describeInterfaces registers it
     made = []
     for p in cfg["stack"]:
         i = cls[p["name"]](r, cs)
@@ -525,13 +546,17 @@ def _drive(cfg, cs, r, cls, obs):
     kw = lambda p: {"reverseAtEOL": p["reverseAtEOL"], "enabled": p["enabled"], "bolForce": p["bolForce"]}
     if cfg.get("build") == "insert0":
         for i, p in reversed(made):
-            o.addInterface(i, index=0, **kw(p))
+            o.addInterface(i, index=1 if real else 0, **kw(p))
     else:
         for i, p in made:
             o.addInterface(i, **kw(p))
     if any(p.get("dependsOn") for p in cfg["stack"]):
         o._processInterfaceDependencies()
-    if s["tightCoupling"]:
+    if real:
+        from armi.bookkeeping.db.databaseInterface import DatabaseInterface
+
+        o.addInterface(DatabaseInterface(r, cs))
+    elif s["tightCoupling"]:
         o.addInterface(cls["database"](r, cs))
     obs["stack"] = [i.name for i in o.getInterfaces()]
     obs["couplers"] = [i.name for i in o.getInterfaces() if i.coupler is not None]
@@ -543,6 +568,14 @@ def _drive(cfg, cs, r, cls, obs):
                 act["%s|%s|%d" % (ev, ",".join(ex), cyc)] = [i.name for i in o.getActiveInterfaces(ev, excludedInterfaceNames=ex, cycle=cyc)]
     obs["active"] = act
     o.operate()
+    if real:
+        from armi.bookkeeping.db import Database
+
+        o.getInterface("database").database.close()
+        with Database(cs.caseTitle + ".h5", "r") as db:
+            nodes = [list(x) for x in db.genTimeSteps()]
+            # the end-of-life snapshot is stored under the last node's stamp + "EOL" and is listed again
+            obs["dbnodes"] = [x for k, x in enumerate(nodes) if k == 0 or x != nodes[k - 1]]
 
 
 def _quiet_banner():
@@ -559,46 +592,68 @@ def _quiet_banner():
 
 def execute(cfg):
     """Run one explicit configuration on the real operator.  Returns a JSON-able observation."""
-    import random
-
     from armi import context
-    from armi import settings as S
-    from armi.operators.operator import Operator
     from mcverif import build
 
-    cls = _classes()
+    _classes()
     _quiet_banner()
-    obs = {"trace": [], "status": "ok"}
-    _CUR["trace"] = obs["trace"]
     d = env.fresh_dir("c15")
     old_cwd, old_app = os.getcwd(), context.APP_DATA
     os.chdir(d)
     context.APP_DATA = d  # Operator.__init__ creates its fast path below APP_DATA (default /tmp/.armi)
     try:
-        s = dict(cfg["settings"])
-        new = {"inputHeightsConsideredHot": True, "db": False, "verbosity": "error", "branchVerbosity": "error"}
-        new.update(s)
-        try:
-            cs = S.Settings().modified(newSettings=new)
-        except Exception as e:  # schema refusal
-            obs["status"] = "settings-refused"
-            obs["exc"] = [type(e).__name__, str(e)[:300], _armi_frame(e.__traceback__)]
-            return obs
-        random.seed(0)
-        r = build.reactor(_spec(), cs)
-        # what MainInterface.interactBOL does for a restart: continue at (startCycle, startNode)
-        r.p.cycle, r.p.timeNode = s["startCycle"], s["startNode"]
-        try:
-            _drive(cfg, cs, r, cls, obs)
-        except Exception as e:
-            obs["status"] = "raised"
-            obs["exc"] = [type(e).__name__, str(e)[:300], _armi_frame(e.__traceback__)]
-        obs["conv"] = _conversions(cs)
+        if cfg.get("kind") != "db":
+            return _execute_one(cfg, {})
+        # restart through the real MainInterface + DatabaseInterface: a complete first run writes the
+        # database, the run under test restarts from it
+        with open("bp.yaml", "w") as f:
+            f.write(build.render(build.normalize(_spec())))
+        first = dict(cfg, settings=dict(cfg["settings"], startCycle=0, startNode=0))
+        o1 = _execute_one(first, {"db": True, "loadingFile": "bp.yaml"}, title="first")
+        if o1["status"] != "ok" or (cfg["settings"]["startCycle"], cfg["settings"]["startNode"]) == (0, 0):
+            return o1
+        o2 = _execute_one(cfg, {"db": True, "loadingFile": "bp.yaml", "loadStyle": "fromDB", "reloadDBName": os.path.join(d, "first.h5")}, title="second")
+        o2["first"] = o1
+        return o2
     finally:
         _CUR["trace"] = None
         os.chdir(old_cwd)
         context.APP_DATA = old_app
         shutil.rmtree(d, ignore_errors=True)
+
+
+def _execute_one(cfg, extra, title=None):
+    import random
+
+    from armi import settings as S
+    from mcverif import build
+
+    cls = _classes()
+    obs = {"trace": [], "status": "ok"}
+    _CUR["trace"] = obs["trace"]
+    s = dict(cfg["settings"])
+    new = {"inputHeightsConsideredHot": True, "db": False, "verbosity": "error", "branchVerbosity": "error"}
+    new.update(s)
+    new.update(extra)
+    try:
+        cs = S.Settings().modified(newSettings=new)
+    except Exception as e:  # schema refusal
+        obs["status"] = "settings-refused"
+        obs["exc"] = [type(e).__name__, str(e)[:300], _armi_frame(e.__traceback__)]
+        return obs
+    if title:
+        cs.path = os.path.join(os.getcwd(), title + ".yaml")
+    random.seed(0)
+    r = build.reactor(_spec(), cs)
+    if cfg.get("kind") != "db":
+        # what MainInterface.interactBOL does for a restart: continue at (startCycle, startNode)
+        r.p.cycle, r.p.timeNode = s["startCycle"], s["startNode"]
+    try:
+        _drive(cfg, cs, r, cls, obs)
+    except Exception as e:
+        obs["status"] = "raised"
+        obs["exc"] = [type(e).__name__, str(e)[:300], _armi_frame(e.__traceback__)]
+    obs["conv"] = _conversions(cs)
     return obs
 
 
@@ -676,8 +731,9 @@ def _fmt(rec):
 def judge(cfg, obs):
     """Compare one observation with the reference.  Returns (violations, info)."""
     vs = []
-    case = {k: cfg[k] for k in ("settings", "stack", "build") if k in cfg}
+    case = {k: cfg[k] for k in ("settings", "stack", "build", "kind") if k in cfg}
     where = _short(cfg)
+    real = cfg.get("kind") == "db"
 
     def bad(key, msg):
         vs.append(core.viol("c15/" + key, msg + " :: " + where, case))
@@ -685,6 +741,12 @@ def judge(cfg, obs):
     s = cfg["settings"]
     H, refuse = ref_history(s)
     info = {"refused": bool(refuse), "events": 0}
+    if real and obs.get("first"):
+        # the complete first run that wrote the restart database is judged like any other run
+        v1, i1 = judge(dict(cfg, settings=dict(s, startCycle=0, startNode=0)), obs["first"])
+        if v1:
+            return v1, i1
+        info["events"] += i1["events"]
     if obs["status"] == "settings-refused":
         bad("settings-refused-" + obs["exc"][0], "the settings object refuses a cycle history of the alphabet: %s" % obs["exc"][1])
         return vs, info
@@ -696,16 +758,29 @@ def judge(cfg, obs):
             bad("inconsistent-history-raises-%s-%s" % (obs["exc"][0], refuse), "inconsistent cycle history (%s) is not refused with ValueError but %s in %s: %s" % (refuse, obs["exc"][0], obs["exc"][2], obs["exc"][1]))
         return vs, info
     if obs["status"] == "raised":
-        bad("run-raises-%s-in-%s" % (obs["exc"][0], obs["exc"][2]), "the run raised %s in %s: %s (after %d hook events)" % (obs["exc"][0], obs["exc"][2], obs["exc"][1], len(obs["trace"])))
+        tags = ""
+        if any("burn steps" in c and not c["burn steps"] for c in s.get("cycles") or []):
+            tags += "-with-zero-burn-steps-cycle"
+        if any(h["af"] == 0 for h in H):
+            tags += "-with-zero-availability"
+        if s["tightCoupling"] and s["tightCouplingMaxNumIters"] == 0:
+            tags += "-with-zero-iteration-cap"
+        bad("run-raises-%s-in-%s%s" % (obs["exc"][0], obs["exc"][2], tags), "the run raised %s in %s: %s (after %d hook events)" % (obs["exc"][0], obs["exc"][2], obs["exc"][1], len(obs["trace"])))
         vs += _judge_conversions(cfg, H, obs, case, where)
         return vs, info
     # --- stack construction and active-interface selection
     stack = list(cfg["stack"])
-    exp_stack = [p["name"] for p in stack] + [p["dependsOn"] for p in stack if p.get("dependsOn")] + (["database"] if s["tightCoupling"] else [])
+    exp_stack = [p["name"] for p in stack] + [p["dependsOn"] for p in stack if p.get("dependsOn")] + (["database"] if s["tightCoupling"] and not real else [])
+    if real:
+        # real MainInterface first, dependencies are attached before the driver adds the database interface last
+        exp_stack = ["main"] + exp_stack + ["database"]
     if obs.get("stack") != exp_stack:
         bad("stack-construction", "stack is %s, expected %s" % (obs.get("stack"), exp_stack))
         return vs, info
-    full = stack + [_profile(p["dependsOn"], "disabled+bolForce") for p in stack if p.get("dependsOn")] + ([_profile("database", "plain")] if s["tightCoupling"] else [])
+    full = stack + [_profile(p["dependsOn"], "disabled+bolForce") for p in stack if p.get("dependsOn")] + ([_profile("database", "plain")] if s["tightCoupling"] and not real else [])
+    if real:
+        # main is flagged reverse-at-EOL and sits first: it must come out last at EOL
+        full = [_profile("main", "reverseAtEOL")] + full + [_profile("database", "plain")]
     exp_couplers = [p["name"] for p in full if p["coupled"] is not None and s["tightCoupling"]]
     if obs.get("couplers") != exp_couplers:
         bad("couplers", "interfaces owning a coupler: %s, expected %s" % (obs.get("couplers"), exp_couplers))
@@ -719,8 +794,8 @@ def judge(cfg, obs):
             bad("active-interfaces-" + ev, "getActiveInterfaces(%s, excluded=%s, cycle=%s) = %s, expected %s" % (ev, list(ex), cyc, got, want))
             break
     # --- trace, element by element
-    E, O = reference(cfg, H), obs["trace"]
-    info["events"] = len(E)
+    E, O = reference(dict(cfg, hmMass=obs.get("hmMass")), H), obs["trace"]
+    info["events"] += len(E)
     i = 0
     while i < len(E) and i < len(O) and _sig(E[i]) == _sig(O[i]):
         i += 1
@@ -748,6 +823,7 @@ def judge(cfg, obs):
                 j -= 1
         bad(key, "event %d: expected %s, observed %s%s; expected %d events, observed %d" % (i, _fmt(e), _fmt(o), why, len(E), len(O)))
     else:
+        found = False
         for k, (e, o) in enumerate(zip(E, O)):
             for f in ("cycle", "node", "it", "step", "power", "L", "af"):
                 if e.get(f) is None:
@@ -756,9 +832,14 @@ def judge(cfg, obs):
                 if not ok:
                     nm = {"cycle": "r.p.cycle", "node": "r.p.timeNode", "it": "coupledIteration", "step": "r.p.stepLength", "power": "core.p.power", "L": "r.p.cycleLength", "af": "r.p.availabilityFactor"}[f]
                     bad("state-%s-at-%s" % (f, e["e"]), "event %d %s: %s is %r, expected %r" % (k, _fmt(o), nm, o[f], e[f]))
+                    found = True
                     break
-            if vs:
+            if found:
                 break
+    if real and "dbnodes" in obs:
+        want = [[c, n] for c in range(s["nCycles"]) for n in range(len(H[c]["steps"]) + 1)]
+        if obs["dbnodes"] != want:
+            bad("database-time-nodes", "the database written by the run holds time nodes %s, the run (with the merged restart history) visited %s" % (obs["dbnodes"], want))
     vs += _judge_conversions(cfg, H, obs, case, where)
     return vs, info
 
@@ -865,6 +946,31 @@ def _product_configs(ctx, power, seen):
     return out
 
 
+DB_BASES = {
+    "2x2": {"pA": "reverseAtEOL"},
+    "detailed": {"fmt": "mixed", "nCycles": 3, "steps": "v102", "pB": "disabled+bolForce"},
+    "coupled": {"tc": True, "maxIters": 2, "pC": "coupled:2", "skip": "c1"},
+}
+DB_DIMS = ["pA", "pB", "pC", "order", "defer", "build", "dep"]
+
+
+def _db_configs(ctx, power):
+    """Restarts through the real MainInterface + DatabaseInterface (loadStyle fromDB): every restart
+    point of three bases; thorough adds one further stack deviation."""
+    out, seen = [], set()
+    for name, b in DB_BASES.items():
+        for k in range(0, 12):
+            got = enumerate_configs(0 if ctx.quick else 1, dict(b, start=k), power, seen, only_dims=DB_DIMS)
+            for c in got:
+                if any(p["haltAt"] is not None or p["truthy"] for p in c["stack"]):
+                    continue  # halting / value-returning interfaces are covered by the bare-operator runs
+                c["kind"] = "db"
+                c["devs"] = [["db-restart", name], ["start", k]] + c["devs"]
+                c["ndev"] = -2
+                out.append(c)
+    return out
+
+
 def configs(ctx):
     power = 1.0e6 * (1 + ctx.seed % 3)  # any positive rated power is an equivalent representative
     seen = set()
@@ -877,6 +983,7 @@ def configs(ctx):
         cfgs += extra
     if not ctx.quick:
         cfgs += _product_configs(ctx, power, seen)
+    cfgs += _db_configs(ctx, power)
     return cfgs
 
 
@@ -891,7 +998,7 @@ def run(ctx):
         info = r["info"]
         events += info["events"]
         digests.add(info["digest"])
-        ctx.count("configs_with_%s_deviations" % ("product" if cfg["ndev"] < 0 else cfg["ndev"]))
+        ctx.count("configs_%s" % ({-1: "full_product", -2: "db_restart"}.get(cfg["ndev"], "with_%s_deviations" % cfg["ndev"])))
         ctx.count("status_" + info["status"])
         for e, n in info["hist"].items():
             ctx.count("observed_" + e, n)
